@@ -53,8 +53,10 @@ Proved here, for programs of every size, every nesting of the contexts and every
                                           (a later activation at the same address depth passes for the same
                                           one); kept visible, counterexample in its docstring.
      `TailCallConstantSpace`              the repaired full statement (same activation: the address stack is
-                                          never shorter in between), NOT proved;
-     `tailCallConstantSpace_of_invariant` it follows once entry states of loaded programs satisfy the invariant.
+                                          never shorter in between; programs of the generator's grammar);
+     `tail_call_constant_space_full`      PROVED: `loaded_invariant` (every state a loaded program reaches
+                                          satisfies the run-time invariant, the top-level text being the
+                                          bottom activation) + the same-activation theorem.
      `tail_guard_passes`                  (fix C09-02) the sequence starts with a guard that looks the
                                           name up before the operands; it lets the jump happen exactly
                                           when the name still denotes the function object that is running;
@@ -80,6 +82,7 @@ import ZygoVerif.Proofs.TailSite
 import ZygoVerif.Proofs.GenBalancedAll
 import ZygoVerif.Proofs.VMRefine
 import ZygoVerif.Proofs.RunAct
+import ZygoVerif.Proofs.RunMain
 import ZygoVerif.Model.LegacyTail
 import ZygoVerif.Spec.RefEval
 namespace ZygoVerif.C09
@@ -555,17 +558,16 @@ theorem tailIterations_reach {E : St} (hpc : E.pc = 0) :
 
 /-- **The full statement of (c), repaired**: in every run of every program of the model
 generator's grammar (`Bal.okLs`), every re-entry of an activation through its tail sequence has
-the data, scope and address stack depths of the entry `E` of that activation — whatever the
-number of iterations, whatever the body does in between (calls, callees that take tail sequences
-of their own, closures, loops). NOT proved for loaded programs: what is proved is
+the data, scope and address stack depths of the entry `E` of that activation (`0 < a`: a called
+function, not the top-level text, which has no return address) — whatever the number of iterations, whatever the body does in between (calls, callees that take tail sequences
+of their own, closures, loops). PROVED: `tail_call_constant_space_full`, from
 `tail_call_constant_space_same_activation` (the same conclusion for every entry state that
-satisfies C04's run-time invariant `RunInv.WF` + `RunInv.Running`);
-`tailCallConstantSpace_of_invariant` says exactly what is missing — that the entry states of a
-loaded program satisfy that invariant (the top-level text as the bottom activation, C04's
-`run_at_rest`). -/
+satisfies C04's run-time invariant `RunInv.WF` + `RunInv.Running`) and `loaded_invariant` (every
+state a loaded program of the grammar reaches satisfies that invariant: the top-level text is
+the bottom activation, C04's `run_at_rest` machinery). -/
 def TailCallConstantSpace : Prop :=
   ∀ (p : List Expr) (s0 : St), Bal.okLs p = true → Loaded p s0 →
-    ∀ (f np d l a n : Nat) (E E' : St), VmReach s0 E → Entry E f np d l a →
+    ∀ (f np d l a n : Nat) (E E' : St), VmReach s0 E → Entry E f np d l a → 0 < a →
       TailIterations E n E' → Entry E' f np d l a
 
 /-- (c) for the same activation, **no balance hypothesis, no refinement hypothesis**: `E` is the
@@ -578,32 +580,75 @@ invariant is kept by every step (`RunInv.allSpec'`, all 13 functions of the VM's
 nested runs included), an activation pushed above `top` has a longer address stack, and at
 instruction 0 the verifier's entry annotation fixes the depths. -/
 theorem reentry_has_entry_depths (b : RunInv.Base) (E E' : St) (top : RunInv.Act) (rest : List RunInv.Act)
-    (hw : RunInv.WF E) (hr : RunInv.Running b E top rest) (f np d l a : Nat) (hE : Entry E f np d l a)
+    (hw : RunInv.WF E) (hr : RunInv.Running b E top rest) (f np d l a : Nat) (hE : Entry E f np d l a) (ha0 : 0 < a)
     (hreach : RunInv.ReachAbove a E E') (ha : E'.addr.length = a) (hpc : E'.pc = 0) :
     Entry E' f np d l a ∧ RunInv.WF E' ∧ RunInv.Running b E' top rest := by
   obtain ⟨h1, h2, h3, h4, h5⟩ := RunInv.reentry_depths b E E' top rest hw hr hE.pc
+    (by intro h; have := hE.addr; rw [h] at this; simp at this; omega)
     (by rw [hE.addr]; exact hreach) (by rw [ha, hE.addr]) hpc
   exact ⟨⟨hpc, h3.trans hE.cur, h4.trans hE.data, h5.trans hE.scopes, ha⟩, h1, h2⟩
 
 /-- (c), by the number of iterations: every re-entry of the activation through a tail sequence
 has the depths of its first entry. -/
 theorem tail_call_constant_space_same_activation (b : RunInv.Base) (E : St) (top : RunInv.Act) (rest : List RunInv.Act)
-    (hw : RunInv.WF E) (hr : RunInv.Running b E top rest) (f np d l a : Nat) (hE : Entry E f np d l a) :
+    (hw : RunInv.WF E) (hr : RunInv.Running b E top rest) (f np d l a : Nat) (hE : Entry E f np d l a) (ha0 : 0 < a) :
     ∀ n E', TailIterations E n E' → Entry E' f np d l a := by
   intro n E' hit
   obtain ⟨h1, h2, h3⟩ := tailIterations_reach hE.pc hit
   rw [hE.addr] at h1 h2
-  exact (reentry_has_entry_depths b E E' top rest hw hr f np d l a hE h1 h2 h3).1
+  exact (reentry_has_entry_depths b E E' top rest hw hr f np d l a hE ha0 h1 h2 h3).1
 
-/-- what separates the proved theorem from `TailCallConstantSpace`: the invariant at the entry
-states of loaded programs. -/
+/-- from the same-activation theorem to `TailCallConstantSpace`: the invariant at the entry
+states of loaded programs (discharged by `loaded_invariant` below). -/
 theorem tailCallConstantSpace_of_invariant
     (hinv : ∀ (p : List Expr) (s0 : St), Bal.okLs p = true → Loaded p s0 → ∀ E, VmReach s0 E → E.pc = 0 →
       RunInv.WF E ∧ ∃ b top rest, RunInv.Running b E top rest) :
     TailCallConstantSpace := by
-  intro p s0 hok hl f np d l a n E E' hreach hE hit
+  intro p s0 hok hl f np d l a n E E' hreach hE ha0 hit
   obtain ⟨hw, b, top, rest, hr⟩ := hinv p s0 hok hl E hreach hE.pc
-  exact tail_call_constant_space_same_activation b E top rest hw hr f np d l a hE n E' hit
+  exact tail_call_constant_space_same_activation b E top rest hw hr f np d l a hE ha0 n E' hit
+
+/-- the fresh interpreter satisfies the table invariant -/
+theorem wf_initSt : RunInv.WF initSt := by
+  refine ⟨fun id h2 hl => ?_, by decide, rfl, ?_, (fun a ha => by cases ha), (fun lz hlz => by cases hlz), (fun c hc => by cases hc)⟩
+  · have : initSt.fns.length = 2 := rfl
+    omega
+  · intro sc hsc p hp
+    simp only [initSt, List.mem_cons, List.mem_nil_iff, or_false] at hsc
+    subst hsc
+    simp only [List.mem_append, List.mem_cons, List.mem_nil_iff, or_false, List.mem_map] at hp
+    rcases hp with (rfl | rfl) | ⟨nm, _, rfl⟩ <;> rfl
+
+/-- **Every state a loaded program of the grammar reaches satisfies the run-time invariant**: the
+table invariant holds and the loop is `Running`, with the top-level text (`mainfunc` from its
+old end on) as the bottom activation. From C04's `RunInv.load_ok` (the generator keeps the table
+invariant and the text's code is a balanced fragment), `RunInv.loaded_running` (the fragment
+placed in `mainfunc`) and the calling contract step by step (`RunInv.holds_step`). -/
+theorem loaded_invariant (p : List Expr) (s0 : St) (hok : Bal.okLs p = true) (hl : Loaded p s0) :
+    ∀ E, VmReach s0 E → RunInv.WF E ∧ ∃ b top rest, RunInv.Running b E top rest := by
+  obtain ⟨code, t, s1, hload, rfl⟩ := hl
+  obtain ⟨hw1, he1, d1, l1, a1, c1, p1, _, hcode, hids, as, τ, hfrag, h0, _⟩ :=
+    RunInv.load_ok (isFnScope initSt) p code t wf_initSt hok hload
+  have hfo : fnOf s1 mainFn = fnOf initSt mainFn := he1.fnOf mainFn (by decide)
+  obtain ⟨b, a0, _, hA, hh⟩ := RunInv.loaded_running (s1 := s1) code as initSt.loops.length hw1 (by rw [d1]; rfl) (by rw [a1]; rfl)
+    (by rw [hfo]; rfl) (by rw [hfo]; exact Bal.AllOK.nil _) (by rw [hfo]; exact Bal.idsIn_nil _ _) hids he1.loops_len
+    (by rw [p1, hfo]; rfl) hcode hfrag h0
+  intro E hreach
+  have : RunInv.Holds b a0 [] E := by
+    change VmReach (RunInv.loaded s1 code) E at hreach
+    generalize RunInv.loaded s1 code = s at hh hreach
+    induction hreach with
+    | refl => exact hh
+    | step hv _ ih => exact ih (RunInv.holds_step hh hv (by rw [hA]; exact Nat.zero_le _))
+  obtain ⟨hw, _, top, rest, hr, _⟩ := this
+  exact ⟨hw, b, top, rest, hr⟩
+
+/-- **(c), the repaired full statement, proved**: in every run of every program of the model
+generator's grammar, every re-entry of a function activation through its tail sequence has the
+data, scope and address stack depths of the entry of that activation, whatever the number of
+iterations. -/
+theorem tail_call_constant_space_full : TailCallConstantSpace :=
+  tailCallConstantSpace_of_invariant (fun p s0 hok hl E hr _ => loaded_invariant p s0 hok hl E hr)
 
 /-- the repaired body relation is the old one plus the condition on the way -/
 example (f : Nat) (E T : St) (h : vmBodyAct f E T) : vmBody f E T := vmBody_of_act h
@@ -671,7 +716,7 @@ scope, one return address) running above the top level (`Base`: at instruction 4
 example : ∃ b top rest, RunInv.WF exEntry ∧ RunInv.Running b exEntry top rest ∧ Entry exEntry 2 1 0 1 1 ∧
     TailIterations exEntry 0 exEntry := by
   obtain ⟨ann, hV, hact⟩ := RunInv.actOK_of_good exEntry_good (by decide)
-  refine ⟨⟨[], [some 0], [], 0, 4⟩, ⟨2, ann, [], 1, 1⟩, [], exEntry_wf, ?_, ⟨rfl, rfl, rfl, rfl, rfl⟩, .zero⟩
+  refine ⟨⟨[], [some 0], [], 0, 4, false⟩, ⟨2, ann, [], 1, 1⟩, [], exEntry_wf, ?_, ⟨rfl, rfl, rfl, rfl, rfl⟩, .zero⟩
   exact ⟨rfl, by decide, Bal.inv_entry _ ann hV [] 1 1 _ rfl rfl rfl rfl, hact _ _ _, ⟨rfl, rfl, rfl⟩, List.suffix_refl _⟩
 
 open ZygoVerif.LegacyTail in
